@@ -4,7 +4,7 @@ from harness import core
 from props import time_common as tc
 
 BASE = dict(MaxLen=3, MaxT=4, Lo=1, Small=set(), MaxLenS=2, MaxTS=3, Ds={0, 1, 2}, AbsLo=1, Terms={"C", "E", "U"}, AuxLen=2,
-            SpecKs={"N", "C", "E", "U"}, SpecTs={0, 1, 2}, Hz=7, DispOps=set(), DispLen=1)
+            SpecKs={"N", "C", "E", "U", "X"}, SpecTs={0, 1, 2}, Hz=7, DispOps=set(), DispLen=1)
 
 QUICK = [(["debounce", "throttle_first", "sample"], dict(DispOps={"debounce"})),
          (["throttle_with_mapper", "sample_obs"],
@@ -15,7 +15,10 @@ THOROUGH = [(["debounce", "throttle_first", "sample"], dict(MaxLen=4, MaxT=6, Ds
             (["sample_obs"], dict(MaxLen=3, MaxT=4, AuxLen=3, Hz=6)),
             (["debounce", "throttle_first", "sample", "throttle_with_mapper", "sample_obs"],
              dict(MaxLen=2, MaxT=3, SpecTs={0, 2}, AuxLen=1, Hz=6, DispLen=2,
-                  DispOps={"debounce", "throttle_first", "sample", "throttle_with_mapper", "sample_obs"}))]
+                  DispOps={"debounce", "throttle_first", "sample", "throttle_with_mapper", "sample_obs"})),
+            # a cold source that notifies at its very subscription instant
+            (["debounce", "throttle_first", "sample", "throttle_with_mapper", "sample_obs"],
+             dict(Lo=0, MaxLen=2, MaxT=2, SpecTs={0, 1}, AuxLen=1, Hz=5))]
 
 SIM = (["debounce", "throttle_first", "sample"], dict(MaxLen=5, MaxT=7, Ds={0, 1, 2, 3, 5}, Hz=13))
 
@@ -25,7 +28,7 @@ def run(tier):
     groups = tc.run_groups(ck, QUICK if tier == "quick" else THOROUGH, BASE, tier)
     ck.exhaustive = True
     if tier == "thorough":
-        nsim = tc.simulate_and_replay(ck, SIM[0], dict(BASE, **SIM[1]), 40000, tier)
+        nsim = tc.simulate_and_replay(ck, SIM[0], dict(BASE, **SIM[1]), 20000, tier)
         ck.note("simulated_tie_free_scenarios", nsim)
     ck.rule = ("every source timeline (element times 1..MaxT non-decreasing - bursts, gaps below / equal to / above the due time "
                "-, 0..MaxLen elements, ending in completion, error or nothing) x every due time / window / period / throttle-"
